@@ -1449,10 +1449,32 @@ def p13(e: Engine, rep: Report):
         bound = set(f.params) | {
             x.id for x in walk_own(f.node) if isinstance(x, ast.Name) and
             isinstance(x.ctx, ast.Store)}
+        parent = {}
+        for x in walk_own(f.node):
+            for ch in ast.iter_child_nodes(x):
+                parent[id(ch)] = x
+
+        def keyed(x):
+            # kept, compared or used as a key (not merely shown in a log)
+            p = parent.get(id(x))
+            while isinstance(p, (ast.Tuple, ast.List, ast.Starred)):
+                x, p = p, parent.get(id(p))
+            if isinstance(p, (ast.Compare, ast.Set, ast.Dict, ast.Subscript,
+                              ast.Assign, ast.AugAssign, ast.Return,
+                              ast.SetComp, ast.DictComp, ast.ListComp,
+                              ast.GeneratorExp, ast.comprehension)):
+                return True
+            return isinstance(p, ast.Call) and \
+                isinstance(p.func, (ast.Attribute, ast.Name)) and (
+                    p.func.attr if isinstance(p.func, ast.Attribute)
+                    else p.func.id) in (
+                    'add', 'append', 'discard', 'remove', 'setdefault',
+                    'get', 'pop', 'set', 'frozenset', 'dict', 'update',
+                    'index', 'count', 'insert')
         for x in walk_own(f.node):
             if isinstance(x, ast.Call) and isinstance(x.func, ast.Name) and \
                     x.func.id == 'id' and 'id' not in bound and \
-                    len(x.args) == 1:
+                    len(x.args) == 1 and keyed(x):
                 n += 1
                 rep.evaluations += 1
                 rep.functions.add(f.qname)
